@@ -3,6 +3,7 @@ from .common import pyvc_units, frame_unit, CONV_FILES, GATE_FILES
 LEVEL = "other"
 MODULES = ["vf.contracts.c_qiskit"]
 EXPLANATION = ('Clause table. PROVED unbounded incl. termination (pyvc): convert_two_qubits_to_adjacent returns adjacent qubits in the original order inside the original span and exactly the swaps that move the two original qubits there. BOUNDED (native, oracle qiskit.quantum_info.Operator): 490 conversions (quick) - every single two/three-qubit gate on 3 qubits between phase-sensitive single-qubit layers, every 3rd ordered pair of them, explicit swaps between entangling gates, distance-3 gates on 4 qubits, both values of allow_post_selection: accepted amplitudes (heralds + returned post-selection rules, spec permanent) are one non-zero scalar times the qiskit unitary column, nothing accepted outside the qubit subspace, no computational output rejected; or the converter raises ValueError. post_selection_analyzer for every program of <=3 instructions (quick; <=4 thorough) of arity 1-3 with SYMBOLIC qubit indices: a gate marked post-selectable has at most one qubit touched by a later multi-qubit gate (deferral condition M8), single-qubit instructions are marked False, the returned qubit list is exactly the qubits of multi-qubit gates, each once. NOT under contract: convert/_add_* (bounded only). ADDED LATER (bounded): circuits built from several quantum registers, three-qubit gates on 4 and 5 qubits in every control / target order (refused or correct).')
+EXPLANATION = EXPLANATION + ' ADDED IN ROUNDS 5-8. BOUNDED: three entangling gates in every order mixing heralded and post-selected versions, the same gate 2-3 times in a row, explicit swaps moving the post-selected qubits on 4 qubits.'
 ASSUMPTIONS = ["qiskit.quantum_info.Operator is the reference unitary (external oracle)", "thewalrus.perm numeric permanent for the bounded amplitude comparison (atol 1e-7)"]
 TRUSTED = ["z3 5.1", "pyvc encoding of the Python subset", "spec amplitude formula vf/spec/fock.py"]
 NSHARDS = 12
